@@ -29,6 +29,7 @@ type specEnv struct {
 	depth    int
 	pkgT     *types.Package
 	atInstr  ssa.Instruction
+	params   map[string]Val // parameter bindings at a program point (see setParam)
 }
 
 type specError struct{ msg string }
@@ -286,10 +287,19 @@ func (e *specEnv) ident(name string) Val {
 		hn := "ghost$" + name
 		return Val{T: c.heapVar(e.state(), hn, c.sortOf(t)), Typ: t}
 	}
+	if e.inOld {
+		// old(p) of a parameter is its value at function entry
+		if v, ok := e.params[name]; ok {
+			return v
+		}
+	}
 	if e.at != nil {
 		if v, ok := e.f.localAt(name, e.at, e.state(), e.atInstr); ok {
 			return v
 		}
+	}
+	if v, ok := e.params[name]; ok {
+		return v
 	}
 	// package-level constant or variable
 	if pkg := e.pkg(); pkg != nil {
@@ -715,6 +725,18 @@ func (e *specEnv) callExpr(k *ast.CallExpr) Val {
 				return Val{T: Forall([]*Term{r}, Implies(Not(Eq(r, c.slBase(v.T))), Eq(Select(h1, r), Select(h0, r)))), Typ: boolT}
 			}
 			e.fail("only_changes() needs a map or a slice")
+		case "offset", "block":
+			// offset(s) / block(s): position of slice s inside its backing array and
+			// the identity of that array (two slices with the same block are views
+			// of the same storage)
+			v := e.expr(k.Args[0])
+			if _, ok := v.Typ.Underlying().(*types.Slice); !ok {
+				e.fail("%s() needs a slice", id.Name)
+			}
+			if id.Name == "offset" {
+				return Val{T: c.slOff(v.T), Typ: intT}
+			}
+			return Val{T: c.slBase(v.T), Typ: types.Typ[types.Uintptr]}
 		case "is":
 			// is(x, T): interface value x is non-nil and holds a value of dynamic type T
 			v := e.expr(k.Args[0])
@@ -978,12 +1000,8 @@ func (f *frame) localAt(name string, at *ssa.BasicBlock, st State, upto ssa.Inst
 			return f.get(phi), true
 		}
 	}
-	// parameters
-	for _, p := range f.fn.Params {
-		if p.Name() == name {
-			return f.get(p), true
-		}
-	}
+	// (parameters are looked up after the debug references: a parameter that was
+	// reassigned has a more recent value)
 	// DebugRefs: walk up the dominator chain; the closest block that mentions
 	// the variable wins, and within it the last mention.
 	var best ssa.Value
@@ -1017,6 +1035,11 @@ func (f *frame) localAt(name string, at *ssa.BasicBlock, st State, upto ssa.Inst
 			return f.load(st, v), true
 		}
 		return v, true
+	}
+	for _, p := range f.fn.Params {
+		if p.Name() == name {
+			return f.get(p), true
+		}
 	}
 	// free variables of closures
 	for _, fv := range f.fn.FreeVars {
